@@ -200,6 +200,12 @@ _public_ int m_thpool_add(m_thpool_t *pool, m_thpool_task task, void *arg) {
     if (ret) {
         return ret;
     }
+    
+    /* Shutdown may have been requested since the (unlocked) check above, eg: when a running task submits a new one */
+    if (pool->shutdown != SHUTDOWN_NO) {
+        pthread_mutex_unlock(&pool->lock);
+        return -EPERM;
+    }
 
     /*
      * Lazy thread algorithm:
